@@ -3,5 +3,12 @@
 cd "$(dirname "$0")"
 export CARGO_NET_OFFLINE=true
 mkdir -p .work evidence
+# Scratch state that is NOT addressed by the content it was derived from must not survive into a new session: binaries copied
+# out of earlier builds, path caches of earlier sessions, run directories, and the source stamps of the cargo target
+# directories (removing a stamp makes the next build recompile the lelwel crate from /repo's current source whatever the
+# modification times say, see mirse/harness.py refresh_target).  What stays is content-addressed (.work/h/<sha of the emitted
+# parser + harness>) or third-party dependency objects.
+rm -rf .work/bin .work/cache .work/llw-run .work/c15-twice .work/c15-twice-replay .work/c19-* .work/*.mir .work/*.mir.err
+rm -f .work/*/verif-source.stamp
 python3-vt -c "import z3; print('z3', z3.get_version_string())"
 python3-vt -c "import sys; sys.path.insert(0, '.'); from mirse import harness; print(harness.build_llw())"
